@@ -51,7 +51,18 @@ fn generate(seed: u64, tier: Tier) -> Scenario {
     let mut g = Gen::new(r.derive("gen"));
     let root_meta = g.root_meta(&cfg);
     let model = TreeModel::new(root_meta);
-    let burst = g.burst(&model, &cfg, 3 + r.usize(cfg.max_burst));
+    let mut burst = g.burst(&model, &cfg, 3 + r.usize(cfg.max_burst));
+    if r.chance(1, 2) {
+        let mut m2 = model.clone();
+        for e in &burst {
+            m2.apply(e);
+        }
+        for e in g.extension_sibling_scaffold(&m2, &cfg) {
+            if m2.apply(&e) {
+                burst.push(e);
+            }
+        }
+    }
     Scenario {
         check: "C11".into(),
         seed,
